@@ -35,5 +35,10 @@ PerfectWhenSame == pc = "out" /\ SamePartition(out.yr, out.ye) =>
   /\ (IsDefined(out.ari) => REq(out.ari, <<1, 1>>))
   /\ (IsDefined(out.rand) => out.rand = <<1, 1>>)
   /\ (IsDefined(out.pp) => out.pp = <<1, 1>> /\ out.pr = <<1, 1>>)
+(* C08: renaming the labels of one annotation by a bijection changes no score *)
+SwapAB(y) == [k \in 1..Len(y) |-> IF y[k] = "a" THEN "b" ELSE IF y[k] = "b" THEN "a" ELSE y[k]]
+RelabelInv == pc = "out" =>
+  /\ PairwisePClosed(SwapAB(out.yr), out.ye) = out.pp /\ PairwiseRClosed(out.yr, SwapAB(out.ye)) = out.pr
+  /\ RandClosed(SwapAB(out.yr), out.ye) = out.rand /\ Ari(out.yr, SwapAB(out.ye)) = out.ari
 Export == pc = "out" => PrintT("ROW" \o ToJson([ref |-> ref, est |-> est, fs |-> fs, out |-> out]))
 =============================================================================
